@@ -13,7 +13,7 @@ from ..cfg import cfg_of
 from ..model import own_nodes
 from ..values import pattern, match, find, find_all, contains, show, subterms
 from ..domains import polarity, leaf_matcher, POS, NEG, ZERO, BOTH
-from .base import obligation, src, callee_name
+from .base import obligation, src, callee_name, if_branches, split_if
 from .C04 import pattern_term, returns, enclosing_loop, _inside
 from .C01 import missing_library_attrs
 
@@ -187,9 +187,9 @@ def c20_c(ctx):
               node=rr[0])
     # the bounded branch is taken exactly when bounds are given
     sel = [n for n in own_nodes(P.node) if isinstance(n, ast.If)]
-    ok = any(match(ex.term(n.test), pattern(BOUND + ' is not None')) is not None and
+    ok = any(if_branches(ex, n, BOUND + ' is not None') is not None and
              any(isinstance(s, ast.Assign) and contains(ex.term(s.value), 'self.' + B.name + '(*_)')
-                 for s in n.body) for n in sel)
+                 for s in if_branches(ex, n, BOUND + ' is not None')[0]) for n in sel)
     ctx.check(ok, P, 'transform used iff bounds given', 'if logit_transform_bound is not None',
               'the transformed proposal is not selected by `logit_transform_bound is not None`',
               fn=P, node=sel[0] if sel else P.node)
@@ -299,21 +299,21 @@ def c20_e(ctx):
         raise AnchorMissing('proposal function is never called')
     ir = callers[0]
     ex = ctx.ex(ir)
+    _fin = 'np.isfinite(self.prior.logpdf(self.{}()))'.format(P.name)
     tests = [n for n in own_nodes(ir.node) if isinstance(n, ast.If) and
-             match(ex.term(n.test),
-                   pattern('np.isfinite(self.prior.logpdf(self.{}()))'.format(P.name)))
-             is not None]
+             if_branches(ex, n, _fin) is not None]
     if not tests:
         ctx.bad(ir, 'support test', 'the candidate\'s prior log density is not tested with '
                 'isfinite before data collection starts', fn=ir, node=ir.node)
         return
     t = tests[0]
+    t_body, t_orelse = if_branches(ex, t, _fin)
     # accept branch: start data collection for this candidate
-    acc_store = [s for s in t.body if isinstance(s, ast.Assign) and
+    acc_store = [s for s in t_body if isinstance(s, ast.Assign) and
                  match(ex.term(s.targets[0]), pattern("self.state['params'][_]")) is not None and
                  contains(ex.term(s.value), 'self.{}()'.format(P.name))]
-    brk = [s for s in t.body if isinstance(s, ast.Break)]
-    reset = [s for s in t.body if isinstance(s, ast.Assign) and
+    brk = [s for s in t_body if isinstance(s, ast.Break)]
+    reset = [s for s in t_body if isinstance(s, ast.Assign) and
              match(ex.term(s.targets[0]), pattern("self.state['n_sim_round']")) is not None and
              ex.term(s.value) == ('const', 0)]
     ctx.check(bool(acc_store) and bool(brk) and bool(reset), ir,
@@ -321,7 +321,7 @@ def c20_e(ctx):
               'params[n] = candidate, n_sim_round = 0, leave the loop',
               'the finite-prior branch does not store the candidate and start a data '
               'collection round', fn=ir, node=t)
-    lp = [s for s in t.body if isinstance(s, ast.Assign) and
+    lp = [s for s in t_body if isinstance(s, ast.Assign) and
           match(ex.term(s.targets[0]), pattern("self.state['logprior'][_]")) is not None and
           match(ex.term(s.value), pattern('self.prior.logpdf(self.{}())'.format(P.name)))
           is not None]
@@ -329,7 +329,7 @@ def c20_e(ctx):
               'the log prior of the accepted candidate is not recorded', fn=ir, node=t)
     # reject branch: copy previous, advance, no break
     for key in ('params', 'logprior', 'logposterior'):
-        st = [s for s in t.orelse if isinstance(s, ast.Assign) and match(
+        st = [s for s in t_orelse if isinstance(s, ast.Assign) and match(
             ex.term(s.value),
             pattern("self.state['{}'][self.state['n_samples'] - 1]".format(key))) is not None and
             match(ex.term(s.targets[0]),
@@ -338,10 +338,10 @@ def c20_e(ctx):
                   "state['{}'][n] = state['{}'][n-1]".format(key, key),
                   "a candidate outside the support does not copy state['{}'] from the previous "
                   'step'.format(key), fn=ir, node=st[0] if st else t)
-    adv = [s for s in t.orelse if isinstance(s, ast.AugAssign) and isinstance(s.op, ast.Add) and
+    adv = [s for s in t_orelse if isinstance(s, ast.AugAssign) and isinstance(s.op, ast.Add) and
            match(ex.term(s.target), pattern("self.state['n_samples']")) is not None and
            ex.term(s.value) == ('const', 1)]
-    nobrk = not any(isinstance(s, (ast.Break, ast.Return)) for s in t.orelse)
+    nobrk = not any(isinstance(s, (ast.Break, ast.Return)) for s in t_orelse)
     ctx.check(len(adv) == 1 and nobrk, ir, 'rejected candidate advances the chain only',
               'n_samples += 1 and another proposal is made',
               'a candidate outside the support does not just advance the chain and continue '
